@@ -380,7 +380,7 @@ func propC15(run *Run, n int) {
 		a, b := cfg.Pair(r)
 		hist := []int{}
 		for k := 0; k < 4+r.Intn(5); k++ {
-			hist = append(hist, r.Intn(8))
+			hist = append(hist, r.Intn(len(c15Calls)))
 		}
 		out := addC15Case(run, ch.o, ch.label, a, b, hist)
 		lines = append(lines, out)
@@ -473,7 +473,7 @@ func fnvStrings(ls []string) uint64 {
 	return h
 }
 
-var c15Calls = []string{"Diff", "Equals", "Render", "RenderColor", "RenderPatch", "RenderMerge", "Json", "Yaml"}
+var c15Calls = []string{"Diff", "Equals", "Render", "RenderColor", "RenderPatch", "RenderMerge", "Json", "Yaml", "JsonOpts", "YamlOpts"}
 
 func addC15Case(run *Run, o OptSet, label string, a, b *Val, hist []int) string {
 	aw, bw := a.Wire(), b.Wire()
@@ -516,6 +516,10 @@ func addC15Case(run *Run, o OptSet, label string, a, b *Val, hist []int) string 
 				out = an.Json() + "|" + bn.Json()
 			case "Yaml":
 				out = an.Yaml() + "|" + bn.Yaml()
+			case "JsonOpts": // rendered under the options (arrays as sets / multisets)
+				out = an.Json(opts...) + "|" + bn.Json(opts...)
+			case "YamlOpts":
+				out = an.Yaml(opts...) + "|" + bn.Yaml(opts...)
 			}
 			log = append(log, name+"="+out)
 			if prev, ok := first[name]; ok && prev != out && verdict == "ok" {
